@@ -108,6 +108,7 @@ class MPBFixedFormat_maxval(Contract):
 
 class MPBFixedFormat_minval(Contract):
     target = 'fpy2.number.context.mpb_fixed:MPBFixedFormat.minval'
+    options = {'split_heavy': True}
     params = {'self': 'MPBFixedFormat', 's': 'bool'}
     returns = 'Float'
     properties = ['C16']
